@@ -25,6 +25,72 @@ func TestSim(t *testing.T) {
 
 type iv struct{ inv, ret uint64 }
 
+// evt hides the arity of the event under test (the Trigger and LinkTo code is generated per arity): every variant
+// carries the trigger number as first argument and values derived from it in the others, which every hook checks.
+type evt struct {
+	trigger func(arg int)
+	hook    func(cb func(arg int), opts ...event.Option) (unhook func())
+	linkTo  func(target *evt) // nil unlinks
+	raw     any
+}
+
+func newEvt(s *simrt.Sim, arity int, opts ...event.Option) *evt {
+	bad := func(arg int) {
+		s.Fail("exactly-once", "hook-arguments", "a hook of an event with %d parameters was called with arguments that do not belong to one Trigger call (first argument %d)", arity, arg)
+	}
+	switch arity {
+	case 2:
+		e := event.New2[int, string](opts...)
+		return &evt{raw: e,
+			trigger: func(a int) { e.Trigger(a, fmt.Sprint(a)) },
+			hook: func(cb func(int), o ...event.Option) func() {
+				return e.Hook(func(a int, b string) {
+					if b != fmt.Sprint(a) {
+						bad(a)
+					}
+					cb(a)
+				}, o...).Unhook
+			},
+			linkTo: func(t *evt) {
+				if t == nil {
+					e.LinkTo(nil)
+				} else {
+					e.LinkTo(t.raw.(*event.Event2[int, string]))
+				}
+			}}
+	case 3:
+		e := event.New3[int, string, int64](opts...)
+		return &evt{raw: e,
+			trigger: func(a int) { e.Trigger(a, fmt.Sprint(a), int64(a)*3) },
+			hook: func(cb func(int), o ...event.Option) func() {
+				return e.Hook(func(a int, b string, c int64) {
+					if b != fmt.Sprint(a) || c != int64(a)*3 {
+						bad(a)
+					}
+					cb(a)
+				}, o...).Unhook
+			},
+			linkTo: func(t *evt) {
+				if t == nil {
+					e.LinkTo(nil)
+				} else {
+					e.LinkTo(t.raw.(*event.Event3[int, string, int64]))
+				}
+			}}
+	}
+	e := event.New1[int](opts...)
+	return &evt{raw: e,
+		trigger: e.Trigger,
+		hook:    func(cb func(int), o ...event.Option) func() { return e.Hook(cb, o...).Unhook },
+		linkTo: func(t *evt) {
+			if t == nil {
+				e.LinkTo(nil)
+			} else {
+				e.LinkTo(t.raw.(*event.Event1[int]))
+			}
+		}}
+}
+
 func (a iv) before(b iv) bool { return a.ret != 0 && a.ret < b.inv }
 
 // ---------------------------------------------------------------------------------------------
@@ -38,7 +104,7 @@ type hookRec struct {
 	pooled   bool
 	calls    map[int][]uint64 // trigger arg -> steps at which the hook ran
 	total    int
-	h        *event.Hook[func(int)]
+	unhookFn func()
 	attached bool
 }
 
@@ -56,14 +122,15 @@ func hooks(s *simrt.Sim, pooled bool) {
 	if evMax > 0 {
 		opts = append(opts, event.WithMaxTriggerCount(uint64(evMax)))
 	}
-	ev := event.New1[int](opts...)
+	arity := 1 + s.Choose(3)
+	ev := newEvt(s, arity, opts...)
 	var pool *workerpool.WorkerPool
 	if pooled {
 		pool = workerpool.New("hooks", workerpool.WithWorkerCount(1+s.Choose(2))).Start()
 	}
 	var hs []*hookRec
 	var trigs []*trigRec
-	s.Logf("config eventMax=%d pooled=%v", evMax, pooled)
+	s.Logf("config eventMax=%d pooled=%v arity=%d", evMax, pooled, arity)
 	mkHook := func(name string, max int, usePool bool) *hookRec {
 		h := &hookRec{name: name, max: max, pooled: usePool, calls: map[int][]uint64{}}
 		hs = append(hs, h)
@@ -75,7 +142,7 @@ func hooks(s *simrt.Sim, pooled bool) {
 			o = append(o, event.WithWorkerPool(pool))
 		}
 		h.attach.inv = s.Tick()
-		h.h = ev.Hook(func(arg int) {
+		h.unhookFn = ev.hook(func(arg int) {
 			h.calls[arg] = append(h.calls[arg], s.Tick())
 			h.total++
 			s.Logf("hook %s called with %d", name, arg)
@@ -110,7 +177,7 @@ func hooks(s *simrt.Sim, pooled bool) {
 					trigs = append(trigs, t)
 					t.call.inv = s.Tick()
 					s.Logf("Trigger(%d)", t.arg)
-					ev.Trigger(t.arg)
+					ev.trigger(t.arg)
 					t.call.ret = s.Tick()
 					s.Logf("Trigger(%d) returned", t.arg)
 				case 1:
@@ -120,7 +187,7 @@ func hooks(s *simrt.Sim, pooled bool) {
 						h := mine[sp.target%len(mine)]
 						if h.unhook.inv == 0 {
 							h.unhook.inv = s.Tick()
-							h.h.Unhook()
+							h.unhookFn()
 							h.unhook.ret = s.Tick()
 							s.Logf("Unhook %s", h.name)
 						}
@@ -237,10 +304,11 @@ func hooks(s *simrt.Sim, pooled bool) {
 // LinkTo
 
 func link(s *simrt.Sim) {
-	targets := []*event.Event1[int]{event.New1[int](), event.New1[int]()}
-	linked := event.New1[int]()
+	arity := 1 + s.Choose(3)
+	targets := []*evt{newEvt(s, arity), newEvt(s, arity)}
+	linked := newEvt(s, arity)
 	got := map[int]int{} // trigger arg -> times the linked event fired with it
-	linked.Hook(func(arg int) {
+	linked.hook(func(arg int) {
 		got[arg]++
 		s.Logf("linked event fired with %d", arg)
 	})
@@ -274,16 +342,16 @@ func link(s *simrt.Sim) {
 					trigs = append(trigs, t)
 					t.call.inv = s.Tick()
 					s.Logf("target%d.Trigger(%d)", sp.target, t.arg)
-					targets[sp.target].Trigger(t.arg)
+					targets[sp.target].trigger(t.arg)
 					t.call.ret = s.Tick()
 				} else {
 					l := &lk{target: sp.target}
 					links = append(links, l)
 					l.call.inv = s.Tick()
 					if sp.target < 0 {
-						linked.LinkTo(nil)
+						linked.linkTo(nil)
 					} else {
-						linked.LinkTo(targets[sp.target])
+						linked.linkTo(targets[sp.target])
 					}
 					l.call.ret = s.Tick()
 					s.Logf("LinkTo(target%d) returned", sp.target)
